@@ -54,7 +54,9 @@ import (
 // observation, mode 1: (status names flags resolutions rest commit)
 //   flags        per branch, per column 0 | 1 NEW | 2 REMOVED (CONFLICTS csv)
 //   resolutions  RESOLUTION rows of the CONFLICTS csv, sorted;  rest: its trailing unlabelled rows
-//   commit       () when something conflicts, else ((col ...) ((cell ...) ...)) = MERGE csv = export of the merge commit
+//   commit       ((col ...) ((cell ...) ...)) = MERGE csv = export of the merge commit when nothing conflicts;
+//                when the library reports an unresolved record: `wrgl merge` without --no-gui (merge tool
+//                unable to start: TERM names no terminal) must refuse: (1); anything it committed otherwise
 
 func init() { props["C05"] = &Prop{Gen: genC05, Run: runC05} }
 
